@@ -9,6 +9,8 @@ if extra == "--hard":
              "Aim for faults with a rarer trigger: a specific combination of values or types, three or more cooperating steps, state that persists across "
              "separate evaluations in one process, or an interaction between two otherwise unrelated language features or built-ins. "
              "The fault must still be a realistic maintenance mistake, and your demonstration must still fail deterministically with it.\n")
+if len(sys.argv) > 4:
+    extra += "\nFOCUS for this job (to spread several independent jobs over the code base): " + sys.argv[4] + "\n"
 p = next(json.loads(l) for l in open('/verif/properties.jsonl') if json.loads(l)['id'] == pid)
 print(f"""You are helping to evaluate a test-generation tool for the Pangaea programming language interpreter (Go, hobby project Syuparn/Pangaea). Your job: craft a *subtle bug* (a seeded fault) in the interpreter's source that breaks ONE stated semantic property, while the code still compiles and the project's existing test suite still passes.
 
